@@ -308,6 +308,11 @@ impl UtpStreamWriteHalf {
         self.user_tx.verif_fp(out)
     }
 
+    /// Verification hook: copy of the TX ring contents (the bytes accepted but not yet acknowledged).
+    pub fn verif_ring_contents(&self) -> Vec<u8> {
+        self.user_tx.verif_ring_contents()
+    }
+
     /// Verification hook: is a writer waker registered, and would it wake `current`?
     pub fn verif_writer_waker_wakes(&self, current: &std::task::Waker) -> Option<bool> {
         self.user_tx
